@@ -192,6 +192,27 @@ def check_metric(case):
         except Exception as ex:
             dis.append({"clause": "Raises", "detail": "%s raised %s: %s" % (what, type(ex).__name__, str(ex)[:60])})
             continue
+        if sub == "default":
+            # the same arc OBJECT converted again after it was reversed in place (a conversion must not remember the old direction)
+            try:
+                a2 = mk()
+                list(a2.as_cubic_curves() if degree == "cubic" else a2.as_quad_curves())
+                a2.reverse()
+                ch2 = list(a2.as_cubic_curves() if degree == "cubic" else a2.as_quad_curves())
+                if not ch2:
+                    dis.append({"clause": "EmptyChain", "detail": "%s: no curves for the reversed arc" % what})
+                else:
+                    s0, e1 = f(1.0), f(0.0)
+                    if (ch2[0].start.x, ch2[0].start.y) != s0 or (ch2[-1].end.x, ch2[-1].end.y) != e1:
+                        dis.append({"clause": "ChainEnds", "detail": "%s [converted, reversed, converted again]: chain runs %r -> %r, the reversed arc %r -> %r" % (what, ch2[0].start, ch2[-1].end, s0, e1)})
+                    worst = max(dist(g.point(j / 8.0)) for g in ch2 for j in range(9))
+                    if worst / rmax > bound:
+                        dis.append({"clause": "ErrorBound", "degree": degree, "rel_dev": worst / rmax,
+                                    "detail": "%s [converted, reversed, converted again]: points stray %.3g x the larger radius from the ellipse (bound %g)" % (what, worst / rmax, bound)})
+            except engine.CaseTimeout:
+                raise
+            except Exception as ex:
+                dis.append({"clause": "Raises", "detail": "%s (reversed and converted again) raised %s: %s" % (what, type(ex).__name__, str(ex)[:60])})
         if sub == "default" and pos in ("first", "alone"):
             # a path that BEGINS with the arc (no leading move): every arc must still be replaced
             try:
